@@ -1765,6 +1765,10 @@ impl<'a> Driver<'a> {
     }
 }
 
+fn d_bytes(rng: &mut Rng, n: usize) -> Vec<u8> {
+    (0..n).map(|_| rng.below(256) as u8).collect()
+}
+
 pub fn put_mut_call(ks: u64, seq: i64, v: &[u8], salt: Option<&[u8]>, cas: Option<i64>) -> String {
     let item = MutableItem::new(&key_from_seed(ks), v, seq, salt);
     format!(
@@ -2556,6 +2560,19 @@ pub fn run(out: &mut Out, seed: u64, thorough: bool, replay: Option<&str>) {
             if reachable && sn.firewalled {
                 d.out.violation("C18", "reachable-still-firewalled", "the node is reachable at the address its peers report but still considers itself firewalled".into());
             }
+            // (C13) a node that was promoted to server mode is discoverable: servers add the requester of a
+            // find_node that is not flagged read-only, and nothing else.  The refresh that promotes the node
+            // looks its own id up, so every server it knows (at most 20 here) hears such a request from it
+            if reachable && !explicit_server && sn.server_mode {
+                for p in d.net.peers.iter().filter(|p| p.alive) {
+                    if sn.routing_table.iter().any(|(_, a, _)| *a == p.addr)
+                        && !d.s.all_sent.iter().any(|x| x.to == p.addr && !x.msg.read_only() && x.key.as_deref().map(|k| k.contains("/find_node/")).unwrap_or(false))
+                    {
+                        d.out.violation("C13", "promoted-server-not-announced", format!("the node switched to server mode, but {} — which it has in its routing table — has only ever received read-only find_node requests from it: no server it knows can add it before the next table refresh, 15 minutes later", addr_s(&p.addr)));
+                        break;
+                    }
+                }
+            }
         }
         d.finish();
         d.out.mark_distinct(fnv(format!("F{reachable}{explicit_server}{n}").as_bytes()));
@@ -3335,12 +3352,14 @@ pub fn run(out: &mut Out, seed: u64, thorough: bool, replay: Option<&str>) {
     }
     // ---- W: the socket's transaction id counter wraps around u32::MAX in the middle of lookups and puts
     //         (C07, C09): nothing changes for the lookup
-    for (round, back) in [3u32, 1, 7, 40].iter().enumerate() {
+    //         … and crosses the boundaries of its encodings: ids below 2^16, below 2^24 and above travel on
+    //         the wire as byte strings (C01, C10): a put acknowledged before the boundary is found after it
+    for (round, start) in [u32::MAX - 3, u32::MAX - 1, u32::MAX - 7, u32::MAX - 40, 65_536 - 30, 16_777_216 - 25, 255 - 10, 70_000, 3_000_000_000].iter().enumerate() {
         t0 += 10_000_000_000_000;
-        let net = VNet::new(&mut rng, [6usize, 12, 25, 30][round], true);
+        let net = VNet::new(&mut rng, [6usize, 12, 25, 30, 8, 8, 8, 8, 8][round], true);
         let boot = vec![net.peers[0].addr];
         let mut d = Driver::new(out, rng.next(), net);
-        d.tid0 = Some(u32::MAX - back);
+        d.tid0 = Some(*start);
         d.begin("c", &boot, None, rng.next() % 1_000_000 + 1, t0);
         d.run_for(2 * SEC, 10 * MS);
         for k in 0..3 {
@@ -3351,7 +3370,7 @@ pub fn run(out: &mut Out, seed: u64, thorough: bool, replay: Option<&str>) {
         let v = format!("across the wrap {round}").into_bytes();
         d.api(format!("put_imm v={} expect=ok prop=C08", hex(&v)));
         d.settle(20 * SEC, 10 * MS);
-        d.api(format!("get_imm t={}", hex(imm_target(&v).as_bytes())));
+        d.api(format!("get_imm t={} expect=some prop=C01", hex(imm_target(&v).as_bytes())));
         d.settle(20 * SEC, 10 * MS);
         d.run("snap".into());
         d.finish();
@@ -3594,6 +3613,13 @@ pub fn run(out: &mut Out, seed: u64, thorough: bool, replay: Option<&str>) {
         d.settle(20 * SEC, 10 * MS);
         let g2 = d.api(format!("get_mut k={} salt={} seq=none", hex(key_from_seed(9).verifying_key().as_bytes()), hex(&salt)));
         d.settle(20 * SEC, 10 * MS);
+        if !oversize {
+            // (C07) every answer of this lookup is about 1.7 kB long: the nodes it lists are candidates like
+            // any others (after the cache entry of the first lookup has been used up by these two)
+            d.run_for(2 * SEC, SEC);
+            let t = imm_target(&v);
+            d.lookup_and_check_closure(format!("get_imm t={}", hex(t.as_bytes())), &t);
+        }
         for (g, what) in [(g1, "get_immutable of a 1000-byte value"), (g2, "get_mutable of a 1000-byte value under a 64-byte salt")] {
             let got = d.results(g);
             if !oversize && !got.iter().any(|r| r.contains(":item:") || r.contains(":some:")) {
@@ -3693,6 +3719,268 @@ pub fn run(out: &mut Out, seed: u64, thorough: bool, replay: Option<&str>) {
         }
         d.finish();
         d.out.mark_distinct(fnv(format!("U{round}").as_bytes()) ^ d.rng.0);
+        d.s.shutdown();
+    }
+    // ---- K7 (C07): the only node that knows the 20 nodes closest to the target is the holder of a 1000-byte
+    //      value: its answer — value plus 20 nodes, about 1.6 kB, what this library's own server sends — is the
+    //      only way to them.  The nodes an answer lists are candidates whatever else the answer carries
+    for round in 0..(if thorough { 3 } else { 2 }) {
+        t0 += 10_000_000_000_000;
+        let v = d_bytes(&mut rng, 1000 - round * 300);
+        let target = imm_target(&v);
+        let mut net = VNet::new(&mut rng, 22, true);
+        for (j, p) in net.peers.iter_mut().enumerate() {
+            let mut idb = *target.as_bytes();
+            match j {
+                0 => idb[0] ^= 0x80,
+                1 => idb[1] ^= 0x80,
+                _ => { idb[18] ^= 0x01; idb[19] = j as u8; }
+            }
+            p.id = Id::from_bytes(idb).expect("id");
+            p.chain_for = Some((target, match j { 0 => vec![1], 1 => (2..22).collect(), _ => vec![] }));
+        }
+        net.peers[1].imm.insert(target, v.clone());
+        let boot = vec![net.peers[0].addr];
+        let mut d = Driver::new(out, rng.next(), net);
+        d.begin("c", &boot, None, rng.next() % 1_000_000 + 1, t0);
+        d.run_for(2 * SEC, 10 * MS);
+        d.lookup_and_check_closure(format!("get_imm t={}", hex(target.as_bytes())), &target);
+        d.finish();
+        d.out.mark_distinct(fnv(format!("K7{round}").as_bytes()));
+        d.s.shutdown();
+    }
+    // ---- Z1 (C06): a node whose address has port 0 — nothing can be sent there — is among the closest to the
+    //      target in the answers of honest peers.  The lookup asks everybody else, the request to port 0 stays
+    //      outstanding until it expires, and every call returns
+    for round in 0..(if thorough { 3 } else { 2 }) {
+        t0 += 10_000_000_000_000;
+        let mut net = VNet::new(&mut rng, 6 + 3 * round, true);
+        let target = Id::from_bytes(rng.id20()).expect("id");
+        {
+            let mut b = *target.as_bytes();
+            b[19] ^= 1;
+            let p = &mut net.peers[2];
+            p.id = Id::from_bytes(b).expect("id");
+            p.addr = SocketAddrV4::new(*p.addr.ip(), 0);
+            p.alive = false;
+        }
+        let boot = vec![net.peers[0].addr];
+        let mut d = Driver::new(out, rng.next(), net);
+        d.begin("c", &boot, None, rng.next() % 1_000_000 + 1, t0);
+        d.run_for(2 * SEC, 10 * MS);
+        let calls = [format!("find_node t={}", hex(target.as_bytes())), format!("get_peers ih={}", hex(target.as_bytes())), format!("announce ih={} port=7000", hex(target.as_bytes()))];
+        d.api(calls[round % 3].clone());
+        d.settle(20 * SEC, 10 * MS);
+        d.api(calls[(round + 1) % 3].clone());
+        d.settle(20 * SEC, 10 * MS);
+        d.finish();
+        d.out.mark_distinct(fnv(format!("Z1{round}").as_bytes()) ^ d.rng.0);
+        d.s.shutdown();
+    }
+    // ---- Z2 (C02): one key re-announced itself on an info hash: an older record sits on one node, the newer one
+    //      on another.  A second get_signed_peers joins the lookup after both have answered: whatever it is
+    //      handed from the lookup's memory verifies over (info_hash, timestamp) like everything else
+    for order in 0..2 {
+        use ed25519_dalek::Signer;
+        t0 += 10_000_000_000_000;
+        let mut net = VNet::new(&mut rng, 3, true);
+        let ih = Id::from_bytes(rng.id20()).expect("id");
+        let key = key_from_seed(41);
+        let sa = SignedAnnounce::new(&key, &ih);
+        let t_new = sa.timestamp();
+        let t_old = t_new - 7_000_000;
+        let sig_old = key.sign(&crate::streams::server::signable_announce(ih.as_bytes(), t_old)).to_bytes();
+        let old = (*sa.key(), t_old, sig_old);
+        let new = (*sa.key(), t_new, *sa.signature());
+        net.peers[0].speers.insert(ih, vec![if order == 0 { old } else { new }]);
+        net.peers[1].speers.insert(ih, vec![if order == 0 { new } else { old }]);
+        net.peers[1].extra_delay = 60 * MS;
+        net.peers[2].mode = 1;
+        let boot = vec![net.peers[0].addr, net.peers[1].addr, net.peers[2].addr];
+        let mut d = Driver::new(out, rng.next(), net);
+        d.begin("c", &boot, None, rng.next() % 1_000_000 + 1, t0);
+        d.run_for(2 * SEC, 10 * MS);
+        d.api(format!("get_speers ih={}", hex(ih.as_bytes())));
+        d.run_for(200 * MS, 5 * MS);
+        d.api(format!("get_speers ih={}", hex(ih.as_bytes())));
+        d.run_for(100 * MS, 5 * MS);
+        d.api(format!("get_speers ih={}", hex(ih.as_bytes())));
+        d.settle(20 * SEC, 10 * MS);
+        d.finish();
+        d.out.mark_distinct(fnv(format!("Z2{order}").as_bytes()));
+        d.s.shutdown();
+    }
+    // ---- Z3 (C08): two announcements of different payloads on one info hash, the second while the first is in
+    //      flight (queued together / during the lookup / during the store phase).  A call that returns Ok was
+    //      acknowledged by a storing node, so some node holds what that call announced
+    for phase in 0..3 {
+        for signed in [false, true] {
+            t0 += 10_000_000_000_000;
+            let net = VNet::new(&mut rng, 5, true);
+            let ih = Id::from_bytes(rng.id20()).expect("id");
+            let boot = vec![net.peers[0].addr];
+            let mut d = Driver::new(out, rng.next(), net);
+            d.begin("c", &boot, None, rng.next() % 1_000_000 + 1, t0);
+            d.run_for(2 * SEC, 10 * MS);
+            // (the facade signs with the wall clock of the moment of the call: each record is made when it is issued)
+            let first = if signed { sannounce_call(&ih, 51) } else { format!("announce ih={} port=1111", hex(ih.as_bytes())) };
+            d.api(first);
+            match phase {
+                0 => {}
+                1 => { d.pump(MS); d.pump(MS); }
+                _ => {
+                    let mut guard = 0;
+                    while !d.s.all_sent.iter().any(|x| x.key.as_deref().map(|k| k.contains("/put/")).unwrap_or(false)) && guard < 4000 {
+                        d.pump(MS);
+                        guard += 1;
+                    }
+                }
+            }
+            let second = if signed { sannounce_call(&ih, 52) } else { format!("announce ih={} port=2222", hex(ih.as_bytes())) };
+            let c2 = d.api(second);
+            d.settle(20 * SEC, 10 * MS);
+            if d.results(c2).first().map(|r| r.contains(":ok:")).unwrap_or(false) {
+                let held = if signed {
+                    let k2 = *key_from_seed(52).verifying_key().as_bytes();
+                    d.net.peers.iter().any(|p| p.speers.get(&ih).map(|l| l.iter().any(|(k, _, _)| *k == k2)).unwrap_or(false))
+                } else {
+                    d.net.peers.iter().any(|p| p.peers.get(&ih).map(|l| l.iter().any(|a| a.port() == 2222)).unwrap_or(false))
+                };
+                if !held {
+                    d.out.violation("C08", "ok-without-own-request", format!("the second of two {} calls on one info hash (phase {phase}) returned Ok, but no storing node was ever sent what it announces: the acknowledgements it reports belong to the other call", if signed { "announce_signed_peer" } else { "announce_peer" }));
+                }
+            }
+            d.finish();
+            d.out.mark_distinct(fnv(format!("Z3{phase}{signed}").as_bytes()));
+            d.s.shutdown();
+        }
+    }
+    // ---- Z4 (C09): a stranger sends REQUESTS (find_node, get_peers) whose transaction id equals one of a running
+    //      lookup, with an `ip` field of its choosing, to a client and to a server.  A request answers nothing: the
+    //      lookup is not advanced, the stranger does not enter the tables of a client, the address it reports is
+    //      not a vote
+    for mode in ["c", "s"] {
+        t0 += 10_000_000_000_000;
+        let mut net = VNet::new(&mut rng, 2, true);
+        net.peers[0].mode = 1;
+        net.peers[1].mode = 1;
+        let boot = vec![net.peers[0].addr, net.peers[1].addr];
+        let mut d = Driver::new(out, rng.next(), net);
+        d.begin(mode, &boot, None, rng.next() % 1_000_000 + 1, t0);
+        d.run_for(50 * MS, 10 * MS);
+        let stranger = SocketAddrV4::new(Ipv4Addr::new(10, 66, 6, 6), 6666);
+        let fake = SocketAddrV4::new(Ipv4Addr::new(45, 66, 77, 88), 7777);
+        let sid = Id::from_bytes(rng.id20()).expect("id");
+        let tids: Vec<u32> = d.s.all_sent.iter().filter(|x| x.key.is_some()).map(|x| x.msg.transaction_id()).collect();
+        for (j, tid) in tids.iter().enumerate().take(6) {
+            d.seq += 1;
+            let rt = if j % 2 == 0 { RequestTypeSpecific::FindNode(FindNodeRequestArguments { target: sid }) } else { RequestTypeSpecific::GetPeers(GetPeersRequestArguments { info_hash: sid }) };
+            let seq = d.seq;
+            d.queue.push(InFlight { due: verif::now_ns(), from: stranger, re: None, mt: MessageType::Request(dht::RequestSpecific { requester_id: sid, request_type: rt }), ro: false, ip: Some(fake), seq, tid: Some(*tid), legacy: false });
+            d.run_for(20 * MS, 10 * MS);
+        }
+        d.settle(20 * SEC, 10 * MS);
+        d.run_for(2 * SEC, SEC);
+        d.api("info".into());
+        d.run("snap".into());
+        if let Some(sn) = d.s.last_snapshot.clone() {
+            if sn.public_address == Some(fake) {
+                d.out.violation("C09", "request-counted-as-response", format!("the node believes its public address is {} — reported only in the `ip` field of requests a stranger sent under the transaction ids of a running lookup", addr_s(&fake)));
+            }
+            if mode == "c" && (sn.routing_table.iter().any(|(_, a, _)| *a == stranger) || sn.signed_peers_routing_table.iter().any(|(_, a, _)| *a == stranger)) {
+                d.out.violation("C09", "request-counted-as-response", format!("{} never answered anything — it sent requests under the transaction ids of a running lookup to a node in client mode — and is in the routing table", addr_s(&stranger)));
+            }
+        }
+        d.finish();
+        d.out.mark_distinct(fnv(format!("Z4{mode}").as_bytes()));
+        d.s.shutdown();
+    }
+    // ---- Z5 (C17): put A is storing (started from the lookup cache; its storing nodes have gone silent).  B
+    //      supersedes it with cas = A.seq and a value of 1001 bytes; C, another item without cas, follows at
+    //      once.  Whatever becomes of B, C conflicts with the write in flight
+    for big in [1001usize, 40] {
+        t0 += 10_000_000_000_000;
+        let net = VNet::new(&mut rng, 5, true);
+        let boot = vec![net.peers[0].addr];
+        let mut d = Driver::new(out, rng.next(), net);
+        d.begin("c", &boot, None, rng.next() % 1_000_000 + 1, t0);
+        d.run_for(2 * SEC, 10 * MS);
+        d.api(format!("{} expect=ok", put_mut_call(9, 5, b"first", Some(b"z5"), None)));
+        d.settle(20 * SEC, 10 * MS);
+        for p in d.net.peers.iter_mut() {
+            p.ignore_puts = true;
+        }
+        d.api(put_mut_call(9, 6, b"second", Some(b"z5"), None));
+        let mut guard = 0;
+        let before = d.s.all_sent.len();
+        while !d.s.all_sent[before..].iter().any(|x| x.key.as_deref().map(|k| k.contains("/put/")).unwrap_or(false)) && guard < 4000 {
+            d.pump(MS);
+            guard += 1;
+        }
+        let vb = vec![b'b'; big];
+        d.api(put_mut_call(9, 7, &vb, Some(b"z5"), Some(6)));
+        d.api(format!("{} expect=conflict-risk prop=C17", put_mut_call(9, 8, b"third", Some(b"z5"), None)));
+        d.settle(30 * SEC, 10 * MS);
+        d.finish();
+        d.out.mark_distinct(fnv(format!("Z5{big}").as_bytes()));
+        d.s.shutdown();
+    }
+    // ---- Z6 (C16): the same value republished under a higher seq: the node that still holds seq N answers
+    //      first, the node with seq N+1 later.  get_mutable_most_recent returns seq N+1
+    for (round, (fast_new, same_value)) in [(false, true), (true, true), (false, false)].iter().enumerate() {
+        t0 += 10_000_000_000_000;
+        let old = MutableItem::new(&key_from_seed(9), b"unchanged value", 10, None);
+        let newest = MutableItem::new(&key_from_seed(9), if *same_value { b"unchanged value" } else { b"unchanged valuf" }, 11, None);
+        let target = *old.target();
+        let mut net = VNet::new(&mut rng, 3, true);
+        net.peers[0].muts.insert(target, (old.value().to_vec(), *old.key(), old.seq(), *old.signature()));
+        net.peers[1].muts.insert(target, (newest.value().to_vec(), *newest.key(), newest.seq(), *newest.signature()));
+        net.peers[if *fast_new { 0 } else { 1 }].extra_delay = 150 * MS;
+        let boot = vec![net.peers[0].addr, net.peers[1].addr];
+        let mut d = Driver::new(out, rng.next(), net);
+        d.begin("c", &boot, None, rng.next() % 1_000_000 + 1, t0);
+        d.run_for(2 * SEC, 10 * MS);
+        let c = d.api(format!("get_mut_recent k={} salt=none", hex(key_from_seed(9).verifying_key().as_bytes())));
+        d.settle(20 * SEC, 10 * MS);
+        let got = d.results(c);
+        if !got.iter().any(|r| r.contains(":recent:") && r.contains("seq=11 ")) {
+            d.out.violation("C16", "newest-item-missed", format!("two live nodes hold seq 10 and seq 11 of one key ({}) and both answered in time, but get_mutable_most_recent returned {:?}", if *same_value { "the same value" } else { "different values" }, got.iter().map(|r| r.chars().take(100).collect::<String>()).collect::<Vec<_>>()));
+        }
+        let c2 = d.api(format!("get_mut k={} salt=none seq=none", hex(key_from_seed(9).verifying_key().as_bytes())));
+        d.settle(20 * SEC, 10 * MS);
+        let _ = c2;
+        d.finish();
+        d.out.mark_distinct(fnv(format!("Z6{round}").as_bytes()));
+        d.s.shutdown();
+    }
+    // ---- G5 (C14): forty minutes of uptime of a node whose transaction id counter crosses 2^16 (2^24) on the
+    //      way: eight steady peers answer every request they can read.  All of them are still in the table
+    for start in [65_536u32 - 60, 16_777_216 - 60, 1000] {
+        t0 += 10_000_000_000_000;
+        let net = VNet::new(&mut rng, 8, true);
+        let boot = vec![net.peers[0].addr];
+        let mut d = Driver::new(out, rng.next(), net);
+        d.tid0 = Some(start);
+        d.begin("c", &boot, None, rng.next() % 1_000_000 + 1, t0);
+        d.run_for(3 * SEC, 10 * MS);
+        d.run("snap".into());
+        for minute in 0..40 {
+            d.run_for(60 * SEC, SEC);
+            if minute % 5 == 4 {
+                d.run("snap".into());
+            }
+        }
+        d.run("snap".into());
+        if let Some(sn) = d.s.last_snapshot.clone() {
+            for p in d.net.peers.iter() {
+                if !sn.routing_table.iter().any(|(_, a, _)| *a == p.addr) {
+                    d.out.violation("C14", "steady-peer-missing", format!("{} has been up and answering every well-formed request for the 40 minutes this node has run, the table has room for it ({} entries), and it is not in the routing table", addr_s(&p.addr), sn.routing_table.len()));
+                    break;
+                }
+            }
+        }
+        d.finish();
+        d.out.mark_distinct(fnv(format!("G5{start}").as_bytes()));
         d.s.shutdown();
     }
     // ---- I: more than 1000 distinct lookup targets roll the lookup cache (C20)
